@@ -83,7 +83,8 @@ def replay(rec: Dict[str, Any]) -> List[Tuple[str, Dict[str, Any], str]]:
                           "finditer_async": lambda: _drive(_acollect(path, untag(dt["doc"]), fc)),
                           "env.query": lambda: list(env.query(text, untag(dt["doc"]), filter_context=fc).values()),
                           "match": lambda: [m.obj for m in [path.match(untag(dt["doc"]), filter_context=fc)] if m is not None]}
-                for rname, fn in routes.items():
+                compound = any(untext(rec["assign"][k]) in text for k in ("union", "inter"))
+                for rname, fn in (routes.items() if compound or d == 0 else ()):       # (simple queries: the other entry points on the first document only)
                     g = [canon(tag(v)) for v in fn()]
                     if g != (exp[:1] if rname == "match" else exp):
                         disc = f"{rname}:different-result-than-default-spelling"
@@ -123,8 +124,6 @@ LEXCFG = """CONSTANTS Universe = "prefix"
 INIT Init
 NEXT Next
 INVARIANT KindsStable
-INVARIANT NeverIllegal
-INVARIANT ExportKinds
 """
 
 
@@ -150,13 +149,17 @@ def lexer_conformance(rec: Dict[str, Any]) -> List[Tuple[str, Dict[str, Any], st
 def run(chk: Check, tier: str, seed: int) -> None:
     # the lexer model: kinds independent of the assignment (longest-first), refuted for shortest-first, and equal to the real lexer's
     jobs = [("MC_Lexer", LEXCFG.format(order="longest-first"), dict(timeout=3000, workers=10)),
-            ("MC_Lexer", LEXCFG.format(order="shortest-first").replace("INVARIANT ExportKinds\n", ""), dict(timeout=3000, workers=4, expect_violation=True))]
+            ("MC_Lexer", LEXCFG.format(order="shortest-first"), dict(timeout=3000, workers=4, expect_violation=True))]
     lex_ok, lex_bad = core.tlc_parallel(jobs, threads=2)
     if not lex_bad.violation or "KindsStable" not in lex_bad.violation:
         raise core.MachineryError("MC_Lexer with shortest-first ordering did not violate KindsStable (the lexer model has lost its teeth)")
     chk.add_tlc(lex_ok)
     chk.extra["lexer_model_selftest"] = "shortest-first rule order refuted by TLC: " + lex_bad.violation
     lrecs = [x for x in lex_ok.records if "kinds" in x]
+    # two identifiers with one spelling (the documentation's example): the rule listed first wins, in the model and in the code
+    r2 = tlc("MC_Lexer", LEXCFG.format(order="longest-first").replace('Universe = "prefix"', 'Universe = "collide"').replace("INVARIANT KindsStable\n", "INVARIANT ExportKinds\n"), timeout=600)
+    chk.add_tlc(r2)
+    lrecs += [x for x in r2.records if "kinds" in x]
     for res in core.pmap(lexer_conformance, lrecs):
         chk.traces += 1
         for sig, case, what in res:
@@ -171,6 +174,9 @@ def run(chk: Check, tier: str, seed: int) -> None:
             _state["ctx"] = x["ctx"]
         else:
             recs.append(x)
+    rc = tlc("MC_Tokens", CFG.format(universe="collide"), timeout=600)
+    chk.add_tlc(rc)
+    collide = [x for x in rc.records if "docs" not in x]
     recs.sort(key=lambda x: json.dumps(x["assign"], sort_keys=True))
     if tier == "quick":  # every assignment, programs rotated (thorough: every assignment x every program)
         def delicate(x: Dict[str, Any]) -> bool:
@@ -178,6 +184,7 @@ def run(chk: Check, tier: str, seed: int) -> None:
             return untext(x["text"]) != untext(x["dtext"]) and any(untext(x["assign"][k]) != d and untext(x["assign"][k]) in untext(x["text"]) for k, d in (("union", "|"), ("inter", "&")))
 
         recs = [x for i, x in enumerate(recs) if i % 3 == 0 or delicate(x)]
+    recs += collide
     for rec, res in zip(recs, core.pmap(replay, recs)):
         chk.traces += 1
         chk.nontrivial.add((json.dumps(rec["assign"], sort_keys=True), untext(rec["dtext"])))
